@@ -20,8 +20,8 @@ import (
 	"github.com/consensys/gnark/frontend/cs/scs"
 	"github.com/consensys/gnark/internal/smallfields/tinyfield"
 	"github.com/consensys/gnark/logger"
-	"github.com/consensys/gnark/std/math/bitslice"
 	gbits "github.com/consensys/gnark/std/math/bits"
+	"github.com/consensys/gnark/std/math/bitslice"
 	"github.com/consensys/gnark/std/math/cmp"
 	"github.com/consensys/gnark/std/math/uints"
 	"github.com/consensys/gnark/std/selector"
@@ -459,18 +459,28 @@ func (e expect) allows(o []*big.Int) bool {
 	return false
 }
 
-func exact(o ...*big.Int) expect   { return expect{kind: kExact, outs: [][]*big.Int{o}} }
-func exactV(o []*big.Int) expect   { return expect{kind: kExact, outs: [][]*big.Int{o}} }
-func unsat() expect                { return expect{kind: kUnsat} }
+func exact(o ...*big.Int) expect    { return expect{kind: kExact, outs: [][]*big.Int{o}} }
+func exactV(o []*big.Int) expect    { return expect{kind: kExact, outs: [][]*big.Int{o}} }
+func unsat() expect                 { return expect{kind: kUnsat} }
 func (e expect) in(c string) expect { e.class = c; return e }
 
 // acc gathers counters locally (one per job) and flushes them once.
 type acc struct {
-	r *vcore.Run
-	m map[string]int
+	r       *vcore.Run
+	m       map[string]int
+	sampled map[string]bool
 }
 
-func newAcc(r *vcore.Run) *acc { return &acc{r: r, m: map[string]int{}} }
+func newAcc(r *vcore.Run) *acc { return &acc{r: r, m: map[string]int{}, sampled: map[string]bool{}} }
+
+// sample offers one written-out case per class and job to the evidence (vcore keeps one per class overall).
+func (a *acc) sample(class string, v map[string]any) {
+	if a.sampled[class] {
+		return
+	}
+	a.sampled[class] = true
+	a.r.SampleClass(class, v)
+}
 func (a *acc) count(k string, n int) { a.m[k] += n }
 func (a *acc) flush() {
 	keys := make([]string, 0, len(a.m))
@@ -624,6 +634,9 @@ func (c *caseT) lieRun(cb combo) {
 	if !res.sat() {
 		a.count("lie.rejected", 1)
 		a.count("lie.rejected."+cb.name(), 1)
+		if !a.sampled["dishonest-hint-rejected/"+topFam(c.fam)] {
+			a.sample("dishonest-hint-rejected/"+topFam(c.fam), map[string]any{"system": c.s.String(), "inputs": vstr(c.in), "lie": cb.name(), "solver_said": errStr(res.err)})
+		}
 		return
 	}
 	if c.exp.kind == kUnsat {
@@ -690,6 +703,9 @@ func (c *caseT) assertWrong(w []*big.Int, cbs []combo) {
 			a.count("assert-wrong.rejected", 1)
 			if cb != nil {
 				a.count("assert-wrong.rejected.with-aimed-lie", 1)
+				if !a.sampled["wrong-output-assertion-rejected/"+topFam(c.fam)] {
+					a.sample("wrong-output-assertion-rejected/"+topFam(c.fam), map[string]any{"system": c.s.String(), "inputs": vstr(c.in), "asserted_output": vstr(w), "documented": c.docStr(), "lie": name, "solver_said": errStr(res.err)})
+				}
 			}
 		}
 	}
@@ -716,6 +732,13 @@ func (c *caseT) finish() {
 			fmt.Sprintf("%s: input %v: several different outputs accepted: %v", c.s, vstr(c.in), ks),
 			map[string]any{"field": c.s.f.name, "builder": c.s.builder, "gadget": c.s.g.name, "inputs": vstr(c.in), "accepted": ks})
 	}
+}
+
+func topFam(fam string) string {
+	if i := strings.IndexByte(fam, '.'); i > 0 {
+		return fam[:i]
+	}
+	return fam
 }
 
 // ---------------------------------------------------------------- jobs
